@@ -506,16 +506,17 @@ def fmt_all(objs):
 # --------------------------------------------------------------------------- naive helpers of the oracle
 
 def naive_lines(d):
-    """independent restatement of what a docstring means: dedented lines without the blank
-    first/last line (white space = ' ' and newline only)"""
+    """independent restatement of what a docstring says: its dedented lines, blank lines at the
+    beginning and at the end not counted (white space = ' ' and newline only).  Whether blank edge
+    lines drift from one formatting to the next is decided by the text-equality clauses."""
     L = d.split("\n")
     L = ["" if l.strip(" ") == "" else l for l in L]
     ind = [len(l) - len(l.lstrip(" ")) for l in L if l != ""]
     m = min(ind) if ind else 0
     L = [l[m:] for l in L]
-    if L and L[0] == "":
+    while L and L[0] == "":
         L = L[1:]
-    if L and L[-1] == "":
+    while L and L[-1] == "":
         L = L[:-1]
     return L
 
